@@ -136,7 +136,7 @@ int main(int argc, char *argv[]) {
 }
 """,
     "structs_unions": b"""
-struct Point { int x, y; unsigned flags : 3; unsigned : 0; };
+struct Point { int x, y; unsigned flags : 3; };
 union U { int i; float f; struct { char a, b; } s; };
 struct Outer {
   struct Inner { int q; enum E { e1, e2 }; } in;
@@ -632,7 +632,8 @@ def m_trunc_rand(rng, name, data, corp):
     return data[:rng.randrange(len(data))]
 
 
-_TRUNC_KINDS = ("lc", "bc", "raw", "str", "chr", "num", "id", "directive", "macro_params", "template_args", "call_args")
+_TRUNC_KINDS = ("lc", "bc", "raw", "str", "chr", "num", "id", "directive", "macro_params", "template_args", "call_args",
+                "opener", "opener", "inside_template")
 
 
 def m_trunc_in(rng, name, data, corp):
@@ -644,7 +645,14 @@ def m_trunc_in(rng, name, data, corp):
     off = 0
     prev_solid = None
     line_is_directive = False
+    tdepth = 0
     for k, t in toks:
+        if t == b"<" and prev_solid is not None and prev_solid[0] == "id":
+            tdepth += 1
+        elif t in (b">", b">>") and tdepth > 0:
+            tdepth = max(0, tdepth - len(t))
+        elif t in (b";", b"{", b"}"):
+            tdepth = 0
         if k == "nl":
             line_is_directive = False
         if kind in ("lc", "bc", "raw", "str", "chr", "num", "id") and k == kind and len(t) > 1:
@@ -657,6 +665,10 @@ def m_trunc_in(rng, name, data, corp):
             pos.append(off + 1)
         elif kind == "call_args" and t in (b"(", b","):
             pos.append(off + 1)
+        elif kind == "opener" and t in _OPEN:
+            pos.append(off + len(t))
+        elif kind == "inside_template" and tdepth > 0 and k not in ("ws", "nl"):
+            pos.append(off + len(t))
         if t == b"#" and (prev_solid is None or prev_solid[0] == "nl_marker"):
             line_is_directive = True
         if k == "nl":
@@ -957,6 +969,264 @@ def gen_multi(rng, corp):
     return label, files, args, broken
 
 
+# ---------------------------------------------------------------------------
+# self-referential and cyclic declarations (using-directives, typedef/base cycles, members, aliases, initialisers)
+# ---------------------------------------------------------------------------
+
+SELF_REF_LOOKUPS = [b"undeclared x;", b"int f() { return nope::q; }", b"nope::T y;", b"typedef undeclared_t U2;",
+                    b"struct D : undeclared_base {};", b"int v = undeclared_v + 1;", b"template<class T> struct Q : nope<T> {};",
+                    b"using nope::thing;", b"int g(undeclared_p a);", b"enum { e = undeclared_e };"]
+
+
+def self_ref_files():
+    """seed independent: (label, bytes).  Each file builds one cyclic or self-referential structure and then uses it
+    (lookups of undeclared names force the complete search of the cycle)."""
+    out = []
+
+    def add(label, text):
+        out.append((label, text if text.endswith(b"\n") else text + b"\n"))
+
+    # cycles of using-directives of length 1..3, in namespaces, then every kind of failing lookup inside and outside
+    for n in (1, 2, 3):
+        names = [b"N%d" % i for i in range(n)]
+        head = b"".join(b"namespace " + x + b" { int in_" + x + b"; }\n" for x in names)
+        uses = b"".join(b"namespace " + names[i] + b" { using namespace " + names[(i + 1) % n] + b"; }\n" for i in range(n))
+        for j, look in enumerate(SELF_REF_LOOKUPS):
+            add("using_cycle%d_in_%d" % (n, j), head + uses + b"namespace " + names[0] + b" { " + look + b" }\n")
+            add("using_cycle%d_out_%d" % (n, j), head + uses + b"using namespace " + names[-1] + b";\n" + look + b"\n")
+        add("using_cycle%d_qual" % n, head + uses + b"int q = " + names[0] + b"::missing;\n" + names[0] + b"::Missing m;\n")
+    add("using_global_self", b"using namespace ::;\nnamespace A { using namespace ::A; using namespace A; undeclared x; }\n")
+    add("using_inline_cycle", b"inline namespace I { namespace J { using namespace I; } using namespace J; }\nundeclared x;\n")
+    add("using_in_class_scope", b"namespace A { struct S; }\nnamespace B { using namespace A; }\nnamespace A { using namespace B; struct S { undeclared_t m; S(); }; }\n")
+    add("namespace_alias_cycle", b"namespace A {}\nnamespace B = A;\nnamespace A { namespace B = A; }\nnamespace C = C;\nB::x y;\nC::z w;\n")
+    # a class that derives from itself through forward declarations, typedefs, aliases, templates, nesting
+    bases = [
+        ("fwd_typedef", b"struct X;\ntypedef X XT;\nstruct X : XT { int a; };\n"),
+        ("fwd_typedef2", b"struct X;\ntypedef X XT;\ntypedef XT XT2;\nstruct X : public XT2 { int a; };\n"),
+        ("fwd_using_alias", b"struct X;\nusing XA = X;\nstruct X : XA { int a; };\n"),
+        ("fwd_direct", b"struct X;\nstruct X : X { int a; };\n"),
+        ("fwd_qualified", b"namespace N { struct X; }\nstruct N::X : N::X { int a; };\n"),
+        ("fwd_global_qualified", b"struct X;\nstruct X : ::X { int a; };\n"),
+        ("mutual", b"struct B;\nstruct A : B { int a; };\nstruct B : A { int b; };\nA va; B vb;\n"),
+        ("mutual3", b"struct A; struct B; struct C;\nstruct A : C {};\nstruct B : A {};\nstruct C : B { virtual void f(); };\nC c;\n"),
+        ("mutual_typedef", b"struct B;\ntypedef B BT;\nstruct A : BT { int a; };\nstruct B : A { int b; };\n"),
+        ("template_self", b"template<class T> struct R : R<T> { T v; };\nR<int> r;\n"),
+        ("template_self_ptr", b"template<class T> struct R : R<T*> { T v; };\nR<int> r;\ntypedef R<char> RC;\n"),
+        ("crtp_wrong", b"template<class T> struct Base : T {};\nstruct D : Base<D> { int a; };\nD d;\n"),
+        ("nested_of_self", b"struct O : O::I { struct I { int q; }; };\n"),
+        ("virtual_self", b"struct X;\ntypedef X XT;\nstruct X : virtual public XT { virtual ~X(); virtual int f() = 0; };\n"),
+        ("union_self", b"union U;\ntypedef U UT;\nunion U : UT { int a; };\n"),
+        ("enum_base_self", b"enum E : E { a };\nenum class F : F;\n"),
+    ]
+    for lab, text in bases:
+        add("base_" + lab, text)
+        add("base_" + lab + "_published", b"#define PUBLISHED __published\n" + text.replace(b"{ int a; }", b"{ PUBLISHED: int a; X(); int get() const; }"))
+    # members, typedefs, aliases, initialisers and default arguments that refer to themselves
+    for lab, text in [
+        ("member_self", b"class K { public: K k; };\nK v;\n"),
+        ("member_self_array", b"struct K { K k[2]; int n; };\n"),
+        ("member_self_static", b"struct K { static K k; K *p; K &r; };\n"),
+        ("member_mutual", b"struct B;\nstruct A { B b; };\nstruct B { A a; };\nA x;\n"),
+        ("member_typedef_self", b"struct K;\ntypedef K KT;\nstruct K { KT k; };\n"),
+        ("typedef_self", b"typedef T T;\nT v;\ntypedef struct S S;\ntypedef S *S;\n"),
+        ("typedef_cycle", b"typedef B A;\ntypedef A B;\nA va;\nB vb;\nstruct Z : A {};\n"),
+        ("typedef_redefine", b"typedef int T;\ntypedef T T;\ntypedef T *T;\nT t;\n"),
+        ("using_alias_self", b"using U = U;\nusing V = W;\nusing W = V;\nU u; V v;\n"),
+        ("alias_template_self", b"template<class T> using P = P<T>;\nP<int> p;\ntemplate<class T> using Q = Q<T*>*;\nQ<int> q;\n"),
+        ("var_self_init", b"int x = x;\nconst int k = k + 1;\nint arr[k];\nconstexpr int c = c;\nenum { e = c };\n"),
+        ("var_mutual_init", b"extern const int b;\nconst int a = b;\nconst int b = a;\nint arr[a];\n#if 0\n#endif\nstatic_assert(a == b, \"\");\n"),
+        ("enum_self", b"enum E { a = b, b = a, c = c };\nint arr[a];\n"),
+        ("enum_sizeof_self", b"enum E { a = sizeof(E), b = (int)E::a };\nstruct S { int x[sizeof(S)]; };\n"),
+        ("default_arg_self", b"int f(int a = f());\nint g(int a = g(g()));\nstruct S { S(S s = S()); };\n"),
+        ("decltype_self", b"decltype(x) x;\nauto y = y;\ndecltype(f()) f();\n"),
+        ("template_default_self", b"template<class T = T> struct A;\ntemplate<int N = N> struct B;\ntemplate<class T, class U = A<U>> struct C;\nC<int> c;\n"),
+        ("template_arg_self", b"template<class T> struct W { typedef W<W<T>> next; next n; };\nW<int> w;\ntypedef W<int>::next::next::next deep;\n"),
+        ("friend_self", b"struct F { friend struct F; friend F; friend int F::f(); };\n"),
+        ("scope_self", b"struct S { struct S; typedef S S2; S2::S2::S2 *p; };\nS::S::S q;\n"),
+        ("make_property_self", b"#define MAKE_PROPERTY(n, ...) __make_property(n, __VA_ARGS__)\nstruct P { __published: int get_p() const; MAKE_PROPERTY(p, get_p, p); MAKE_PROPERTY(get_p, get_p); };\n"),
+        ("make_seq_self", b"struct Q { __published: int get_num() const; int get(int) const; __make_seq(get, get, get); __make_seq(s, s, s); };\n"),
+        ("extension_self", b"struct X { __published: __extension X(X); __extension operator X(); };\n"),
+    ]:
+        add("self_" + lab, text)
+    return out
+
+
+_DECL_NAME = re.compile(rb"\b(struct|class|union|namespace|enum|typedef)\s+(?:[A-Za-z_]\w*\s+)*?([A-Za-z_]\w*)\s*[{;:=]")
+
+
+def m_self_ref(rng, name, data, corp):
+    """make declarations of the file refer to themselves or to each other in a cycle: pick names the file declares
+    (classes, namespaces, typedefs) and append/insert using-directives, typedefs, base lists and members that close a
+    cycle, followed by a lookup of an undeclared name."""
+    found = {}
+    for m in _DECL_NAME.finditer(data):
+        found.setdefault(m.group(1), [])
+        if m.group(2) not in found[m.group(1)] and m.group(2) not in (b"public", b"final", b"T", b"typename"):
+            found[m.group(1)].append(m.group(2))
+    nss = found.get(b"namespace", []) or [b"ns"]
+    tys = (found.get(b"struct", []) + found.get(b"class", []) + found.get(b"union", [])) or [b"SelfT"]
+    tds = found.get(b"typedef", []) or [b"SelfTD"]
+    add = []
+    for _ in range(rng.randrange(1, 4)):
+        k = rng.randrange(9)
+        a, b2 = rng.choice(tys), rng.choice(tys)
+        n1, n2 = rng.choice(nss), rng.choice(nss)
+        if k == 0:
+            add.append(b"namespace " + n1 + b" { using namespace " + n2 + b"; }\nnamespace " + n2 + b" { using namespace " + n1 + b"; " + rng.choice(SELF_REF_LOOKUPS) + b" }")
+        elif k == 1:
+            add.append(b"struct " + a + b";\ntypedef " + a + b" " + a + b"_t;\nstruct " + a + b" : " + a + b"_t { int selfm; };")
+        elif k == 2:
+            add.append(b"struct " + a + b" : " + b2 + b" {};\nstruct " + b2 + b" : " + a + b" {};")
+        elif k == 3:
+            add.append(b"typedef " + rng.choice(tds) + b" " + a + b";\ntypedef " + a + b" " + rng.choice(tds) + b";")
+        elif k == 4:
+            add.append(b"struct " + a + b"_holder { " + a + b"_holder h; " + a + b" m; };")
+        elif k == 5:
+            add.append(b"using namespace " + n1 + b";\nnamespace " + n1 + b" { using namespace ::" + n1 + b"; }\n" + rng.choice(SELF_REF_LOOKUPS))
+        elif k == 6:
+            add.append(b"namespace " + n1 + b" = " + n2 + b";\nnamespace " + n2 + b" { namespace " + n1 + b" { using namespace " + n2 + b"; } }")
+        elif k == 7:
+            add.append(b"template<class SelfP> struct " + a + b"_r : " + a + b"_r<SelfP> {};\n" + a + b"_r<" + b2 + b"> selfv;")
+        else:
+            add.append(b"const int selfk = selfk;\nint selfarr[selfk];\nenum { selfe = selfe2, selfe2 = selfe };")
+    lines = data.split(b"\n")
+    if rng.random() < 0.6:
+        lines.extend(add)
+    else:
+        for a in add:
+            lines.insert(rng.randrange(len(lines) + 1), a)
+    lines.append(rng.choice(SELF_REF_LOOKUPS))
+    return b"\n".join(lines) + b"\n"
+
+
+# ---------------------------------------------------------------------------
+# end of input inside every kind of bracket: every token-prefix of small bracket-heavy declarations
+# ---------------------------------------------------------------------------
+
+BRACKET_SNIPPETS = [
+    ("variadic_inst", b"template<class... T> struct V;\nV<int, char, V<int> > v;\n"),
+    ("variadic_nontype", b"template<int... N> struct I;\nI<1, 2, (3 > 2), sizeof(int)> i;\n"),
+    ("variadic_mixed", b"template<class A, class... R> struct M;\ntypedef M<int, M<char>, const char *> MT;\n"),
+    ("defaulted_inst", b"template<class A, class B = int, int C = 4> struct D {};\nD<char> d1; D<char, long> d2; D<> d3;\n"),
+    ("nested_inst", b"template<class T> struct A {};\ntemplate<class T, class U> struct P {};\nP<A<A<int> >, A<P<int, char> > > p;\n"),
+    ("template_template", b"template<template<class> class TT, class T> struct H { TT<T> m; };\ntemplate<class T> struct A {};\nH<A, int> h;\n"),
+    ("nontype_expr", b"template<int N, bool B = (N > 2)> struct S {};\nS<(1 < 2) ? 3 : 4> s; S<sizeof(int[3]), true> t;\n"),
+    ("scoped_inst", b"namespace n { template<class T> struct A { template<class U> struct B { typedef U type; }; }; }\nn::A<int>::B<char>::type x;\n"),
+    ("spec_partial", b"template<class T, class U> struct Q;\ntemplate<class T> struct Q<T, T*> { int a; };\ntemplate<> struct Q<int, char> {};\n"),
+    ("function_template", b"template<class T, class... A> T make(A&&... a);\nint r = make<int, char, long>('c', 2L);\n"),
+    ("alias_template", b"template<class T> struct A {};\ntemplate<class... T> using L = A<A<T...> >;\nL<int, char> l;\n"),
+    ("var_template", b"template<class T, T... v> constexpr T sum = (v + ...);\nint s = sum<int, 1, 2, 3>;\n"),
+    ("call_args", b"int f(int, int (*)(int, char), ...);\nint r = f(1, (int (*)(int, char))0, f(2, 0), \"s\", 'c');\n"),
+    ("parens_decl", b"int (*(*fp)(int (*)(void), char (&)[3]))[4];\nvoid (S::*pm)(int) const;\n"),
+    ("braces_init", b"struct A { int a[2][2] = {{1, 2}, {3, 4}}; struct { int q; } in{5}; };\nint v[] = {1, {2}, };\n"),
+    ("brackets", b"int a[2][3][sizeof(int[4])];\nint b = a[1][a[0][0][0]][2];\nauto l = [&, b](int (&x)[2]) mutable -> int { return x[0]; };\n"),
+    ("attributes", b"[[nodiscard, gnu::always_inline(1, 2)]] int f [[deprecated(\"x\")]] (int a [[maybe_unused]]);\nstruct [[gnu::packed]] alignas(8) S {};\n"),
+    ("digraphs", b"int a<:2:> = <% 1, 2 %>;\n%:define DG(x) x\nint b = DG(a<:0:>);\n"),
+    ("keyword_parens", b"static_assert(sizeof(int) >= alignof(char), \"m\");\nint f() noexcept(noexcept(f()));\ndecltype(f()) x = static_cast<int>(sizeof...(int));\n"),
+    ("requires", b"template<class T> concept C = requires(T a, T b) { { a + b } -> C; typename T::type; };\ntemplate<C T> requires (sizeof(T) > 1) void g(T);\n"),
+    ("macro_args", b"#define F(a, b, ...) a b __VA_ARGS__\n#define G(x) F(x, (x, x), <x>, [x], {x})\nint G(int) q;\nF((1, 2), \"a,b\", ')', (,), <,>)\n"),
+    ("if_parens", b"#define A(x) (x)\n#if (A((1)) + (2 * (3))) > defined(A) && __has_include(<string>)\nint t;\n#elif (1\n#endif\n"),
+    ("strings_comments", b"const char *s = \"a\\\"b\" R\"x(raw ) \" )x\" u8\"u\" L'\\''; /* c1 /* */ // c2 \\\n still\nint after;\n"),
+    ("class_body", b"class K : public B<int>, private virtual C { public: K(int a = (1, 2)) : B<int>(a), m{a} {} template<class T> operator T() const; private: int m : 3; };\n"),
+    ("published", b"struct P { __published: int get(int i = g(1, 2)) const; __make_property(p, get, set); __make_seq(s, num, get); __extension void e(int (*)(int)); };\n"),
+    ("enum_body", b"enum class E : unsigned char { a = (1 << 2), b = sizeof(int[2]), c = a | b, };\nenum { x = E::a < E::b };\n"),
+    ("extern_c", b"extern \"C\" { int f(void); namespace n { struct S { union { int a; struct { char b, c; }; }; }; } }\n"),
+    ("operator_decl", b"struct O { int operator()(int, int) const; int operator[](int); void *operator new[](unsigned long); O operator<<(O) const; bool operator<(O) const; template<class T> bool operator>(T) const; O operator,(O); operator int (*)(int)(); };\n"),
+    ("function_body", b"int f(int a) { if (a) { for (;;) { while (a) { do { switch (a) { case 1: { break; } } } while (0); } } } return (a); }\nint after_body;\n"),
+    ("lambda_capture", b"auto l = [x = (1, 2), &y, ...z = g<int, (3 > 2)>()](auto&&... a) { return [&]{ return sizeof...(a); }(); };\n"),
+]
+
+
+def bracket_prefix_files(step=1):
+    """seed independent: every prefix of every BRACKET_SNIPPETS entry that ends at a token boundary (white space
+    stripped), i.e. end of file inside every bracket / string / comment of those declarations."""
+    out = []
+    for lab, text in BRACKET_SNIPPETS:
+        toks = tokenize(text)
+        acc = b""
+        k = 0
+        for kind, t in toks:
+            acc += t
+            if kind in ("ws", "nl"):
+                continue
+            k += 1
+            if k % step == 0 and len(acc) < len(text):
+                out.append(("prefix_%s_%d" % (lab, k), acc, lab))
+    return out
+
+
+# ---------------------------------------------------------------------------
+# .N command files: every command x hostile operands
+# ---------------------------------------------------------------------------
+
+NFILE_COMMANDS = [b"forcetype", b"forcevisible", b"renametype", b"ignoretype", b"defconstruct", b"ignoreinvolved",
+                  b"ignorefile", b"ignoremember", b"noinclude", b"forceinclude", b"unknowncmd"]
+NFILE_OPERANDS = [
+    b"", b" ", b"Item", b"Item Item", b"NoSuchType", b"Item::Mode", b"Item::NoSuch", b"::Item", b"Item::", b"::", b"Item::Item::Item",
+    b"struct { int a; }", b"struct { int a; } x", b"struct", b"struct Item", b"struct NoSuch", b"class { }", b"union { int a; char b; }",
+    b"enum { a, b }", b"enum", b"enum Item::Mode", b"struct Fresh { int a; }", b"struct Item { int again; }",
+    b"int", b"int *", b"int &", b"int &&", b"const", b"const int * const *", b"void", b"void *", b"unsigned", b"long long long", b"unsigned float",
+    b"int[3]", b"int[]", b"int[", b"int[-1]", b"int[1/0]", b"int(", b"int()", b"int (*)(int)", b"int (*)(", b"int (Item::*)(int) const", b"int Item::*",
+    b"Vec<int, 2>", b"Vec<", b"Vec<int", b"Vec<int,", b"Vec<int, 2", b"Vec<int, 2> >", b"Vec<>", b"Vec", b"Vec<Vec<int, 2>, 2>", b"Vec<int, 1/0>",
+    b"Vec<int, 2>::value_type", b"Vec<int, 2>::nope", b"Vec<bool, 1>", b"Ptr<Item>", b"Ptr<", b"pi<int>", b"variadic<int>",
+    b"decltype(1)", b"decltype(", b"decltype(nope)", b"decltype(*5)", b"typename Vec<int,2>::value_type", b"typename", b"auto", b"decltype(auto)",
+    b"std::string", b"std::", b"std", b"Outer::Inner", b"Outer::Inner::E", b"Anon", b"AnonPtr", b"FuncPtr", b"IntArr", b"Fwd", b"Final", b"VB", b"U",
+    b"1", b"1 2", b"\"str\"", b"'c'", b"Item 1", b"Item \"x\"", b"Item (", b"Item )", b"Item {", b"Item }", b"Item ;", b"Item , Item", b"Item = 3",
+    b"Item 0.0f", b"Item 1, 2", b"Item Item()", b"Item 1/0", b"Item (1", b"Item x y z", b"NoSuch 1", b"Vec3f 0.0f", b"Vec3f", b"Vec3f LVec3f", b"Vec3f Vec3f",
+    b"<memory>", b"<memory", b"memory>", b"\"local.h\"", b"\"local.h", b"<>", b"\"\"", b"<", b"\"", b"< a >", b"<a> <b>",
+    b"#", b"# Item", b"Item # trailing", b"\\", b"Item \\", b"\xff", b"Item\xff", b"\x00", b"Item\tItem", b"__published", b"__make_property(a, b)",
+    b"operator", b"operator int", b"Item::operator ==", b"~Item", b"Item::~Item", b"this", b"nullptr", b"sizeof(int)", b"template<class T> struct Q",
+    b"X" * 300, b"Item::" * 200 + b"Item", b"(" * 300, b"Vec<" * 40, b"*" * 500,
+]
+
+N_MAIN_TEXT = b"""
+#define PUBLISHED __published
+class Item {
+PUBLISHED:
+  Item();
+  explicit Item(int v);
+  int get_value() const;
+  void set_value(int v);
+  enum Mode { M_a, M_b = 4 };
+public:
+  int _v;
+};
+template<class T, int N = 4>
+class Vec {
+public:
+  typedef T value_type;
+  Vec() {}
+  T &operator [] (int i) { return _d[i]; }
+private:
+  T _d[N];
+};
+template<> struct Vec<bool, 1> { int bits; };
+typedef Vec<float, 3> Vec3f;
+template<class... Args> void variadic(Args&&... args);
+template<class T> using Ptr = T *;
+template<typename T> constexpr T pi = T(3);
+struct Point { int x, y; };
+union U { int i; float f; };
+struct Outer { struct Inner { int q; enum E { e1, e2 }; } in; };
+typedef struct { int a; } Anon, *AnonPtr;
+typedef int (*FuncPtr)(int, ...);
+typedef int IntArr[4][2];
+struct Fwd;
+struct Final final : Point { void v(); };
+struct VB : virtual public Point { using Point::x; };
+"""
+
+
+def nfile_enumeration():
+    """seed independent: (label, bytes) one command line per file: every command x every operand"""
+    out = []
+    for ci, c in enumerate(NFILE_COMMANDS):
+        for oi, o in enumerate(NFILE_OPERANDS):
+            sep = b" " if (ci + oi) % 5 else b"\t "
+            out.append(("ncmd_%s_%d" % (c.decode(), oi), c + sep + o + (b"\n" if oi % 3 else b"")))
+    return out
+
+
 def m_dict_compose(rng, name, data, corp):
     """a small file made only of dictionary items around a few valid lines."""
     lines = []
@@ -994,6 +1264,7 @@ MUTATORS = {
     "dict_compose": (m_dict_compose, 8),
     "pp_sequence": (m_pp_sequence, 10),
     "macro_cycle": (m_macro_cycle, 8),
+    "self_ref": (m_self_ref, 8),
 }
 _MUT_NAMES = sorted(MUTATORS)
 _MUT_WEIGHTS = [MUTATORS[n][1] for n in _MUT_NAMES]
@@ -1020,13 +1291,25 @@ def gen_source(rng, corp, stack_p=0.25):
 def gen_nfile(rng, corp):
     base = rng.choice(NFILES)
     r = rng.random()
-    if r < 0.1:
+    if r < 0.05:
         return "n_identity", base
-    if r < 0.5:
+    if r < 0.45:
+        # 1-4 command lines from the command x operand alphabet, optionally mutated at byte level
+        lines = []
+        for _ in range(rng.randrange(1, 5)):
+            o = rng.choice(NFILE_OPERANDS)
+            if rng.random() < 0.3:
+                o = o + b" " + rng.choice(NFILE_OPERANDS)
+            if rng.random() < 0.2 and o:
+                o = o[:rng.randrange(len(o))]
+            lines.append(rng.choice(NFILE_COMMANDS) + rng.choice((b" ", b" ", b"\t", b"  ", b"")) + o)
+        if rng.random() < 0.3:
+            lines.insert(rng.randrange(len(lines) + 1), rng.choice(base.split(b"\n")))
+        return "n_cmd", b"\n".join(lines) + rng.choice((b"\n", b"", b"\r\n"))
+    if r < 0.65:
         lines = base.split(b"\n")
         i = rng.randrange(len(lines))
-        cmd = rng.choice((b"forcetype", b"renametype", b"ignoretype", b"defconstruct", b"forcevisible", b"ignoremember",
-                          b"ignoreinvolved", b"ignorefile", b"noinclude", b"forceinclude", b""))
+        cmd = rng.choice(NFILE_COMMANDS + [b""])
         n = rng.randrange(0, 5)
         arg = b" ".join(rng.choice(TOKEN_DICT) for _ in range(n))
         lines.insert(i, cmd + rng.choice((b" ", b"", b"\t", b"  ")) + arg)
